@@ -32,7 +32,8 @@ def unread(proxy):
 
 def run_word(word, peer, rnd, counter):
     ver = rnd.choice([1.0, 2.0])
-    proxy = jsonrpc.ServerProxy(peer.url(), version=ver)
+    from jsonrpclib.history import History
+    proxy = jsonrpc.ServerProxy(peer.url(), version=ver, history=History() if rnd.random() < 0.5 or len(word) > 10 else None)
     calls = []
     items = list(word) + ["H"] * TAIL
     with peer.lock:
